@@ -402,3 +402,30 @@ def p_c16(ctx):
         "traces_validated_against_impl": len(files), "trace_events": events, "samples": samples, "exhaustive": True},
         assumptions=["feature agreement is observed through probe attributes: tokens, hover, targets, origins, validation and links must treat exactly the attributes of "
                      "static + selected dependent body as known; completion and validation against the same Effective() operator are C07/C15"])
+
+
+@pipeline("C17")
+def p_c17(ctx):
+    ctx.tlc("MC_Copy.tla", "MC_Copy.cfg", "mccopy", workers=2, timeout=300)
+    sens(ctx, "MC_Copy.tla", "MC_Copy_sens.cfg", "mccopysens")
+    pre = os.path.join(ctx.work, "cp")
+    p = ctx.run_hx(["copy", "-out", pre, "-n", "40" if ctx.quick else "600", "-mut", "12" if ctx.quick else "40", "-seed", str(ctx.seed)])
+    info = json.loads(p.stdout.strip().splitlines()[-1])
+    files = sorted(glob.glob(pre + ".*.ndjson"))
+    bad, events = ctx.validate_traces("TraceCopy.tla", "TraceCopy.cfg", files)
+    viols, samples, types = [], [], set()
+    evs = [json.loads(x) for x in open(files[0])]
+    for e in evs:
+        types.add(e["type"])
+    for b in bad:
+        e = evs[b["l"] - 1]
+        viols.append({"what": "%s: %s" % (e["type"], b["what"]), "replay": {"pipeline": "copy", "type": e["type"], "case": e["case"], "event": {k: e[k] for k in e if k not in ("orig", "copy")}}})
+    samples = [{k: e[k] for k in ("type", "status", "orig")} for e in evs if e["ev"] == "Copy" and len(e["orig"]["shape"]) > 3][:2] + [e for e in evs if e["ev"] == "Mutate"][:2]
+    finish(ctx, viols, {
+        "evaluations": info["cases"] + info["mutations"], "distinct_nontrivial": info["cases"],
+        "rule": "case = one value of one of %d root types with a Copy() method, every exported field populated by reflection over the real struct definitions (nil / empty / 1-2 entries per "
+                "container, every constraint kind, nesting <= 3); its heap graph and the copy's are compared by TraceCopy (Iso, Disjoint), then up to N containers of each side are mutated "
+                "(map add/delete/replace, slice replace, struct field) and the other side's digest must not change" % len(types),
+        "traces_validated_against_impl": len(files), "trace_events": events, "samples": samples, "exhaustive": False},
+        assumptions=["constraints, addresses, cty types/values are immutable values (folded into the scalar digest, may be shared)", "nil and empty containers are the same abstract value; "
+                     "a map that is non-nil in the original must accept entries in the copy", "nil root pointers and nil elements of maps/slices are not schema values"])
